@@ -144,6 +144,7 @@ def run(tier, seed, model):
         long_updates(camp, rng)
     if model is not None:
         theorem_samples(camp, model, rng, 40 if tier == "quick" else 1500)
+        zrle_theorem_samples(camp, model, rng, 30 if tier == "quick" else 600)
     camp.rule = ("random framebuffer contents (palettes of 1..200 colours and noise) encoded by an RFC 6143 encoder written "
                  "independently of the client: Raw, CopyRect, RRE, CoRRE (with decoy sub-rectangles), Hextile (raw/solid/fg/"
                  "coloured tiles, carried background), ZRLE (raw/solid/packed/plain RLE/palette RLE, persistent zlib stream), "
@@ -301,6 +302,115 @@ def theorem_samples(camp, model, rng, n):
                 camp.oracle_failures.append({"kind": "oracle", "property": "C02", "case": case_payload(cfg, chunks, {"spec": "qupdate_roundtrip"}),
                                              "what": f"an update written as the C02 theorems say ({[q[0] for q in rs]} = kinds of its rectangles): the "
                                                      f"client ends {r['final'][:2]}; callback #{k}: promised {trim([want[k]]) if k < len(want) else None}, "
+                                                     f"made {trim([got[k]]) if k < len(got) else None}"})
+                return
+
+
+def _cpx(rng):
+    return [rng.getrandbits(8) for _ in range(3)]
+
+
+def _runlen(rng, n):
+    """n >= 1 as (k, r) with n = 255 k + r + 1, r < 255"""
+    return (n - 1) // 255, (n - 1) % 255
+
+
+def _split(rng, n):
+    """n >= 1 as a list of positive parts"""
+    parts = []
+    while n:
+        k = rng.choice([1, 1, 2, rng.randrange(1, n + 1), n]) if n > 1 else 1
+        k = min(k, n)
+        parts.append(k)
+        n -= k
+    return parts
+
+
+def gen_ztile(rng, tw, th):
+    """one tile, inside what ztile_ok asks of it (packed tiles only when their rows need no padding)"""
+    pixels = tw * th
+    kinds = [0, 1, 2, 3]
+    kind = rng.choice(kinds + [4, 4])
+    if kind == 4:
+        n = rng.choice([2, 2, 3, 4, 5, 9, 16])
+        bits = 1 if n == 2 else 2 if n <= 4 else 4
+        if (tw * bits) % 8 and th != 1:
+            kind = rng.choice(kinds)
+        else:
+            per = 8 // bits
+            idx = [rng.randrange(n) for _ in range(pixels)] + [0] * ((-pixels) % per)
+            bs = []
+            for i in range(0, len(idx), per):
+                b = 0
+                for v in idx[i:i + per]:
+                    b = (b << bits) | v
+                bs.append(b)
+            return [4, [_cpx(rng) for _ in range(n)], bs]
+    if kind == 0:
+        return [0, [_cpx(rng) for _ in range(pixels)]]
+    if kind == 1:
+        return [1, _cpx(rng)]
+    if kind == 2:
+        return [2, [[_cpx(rng), *_runlen(rng, n)] for n in _split(rng, pixels)]]
+    n = rng.choice([2, 3, 17, 127])
+    items = []
+    for m in _split(rng, pixels):
+        if m == 1 and rng.random() < 0.7:
+            items.append([0, rng.randrange(n)])
+        else:
+            items.append([1, rng.randrange(n), *_runlen(rng, m)])
+    return [3, [_cpx(rng) for _ in range(n)], items]
+
+
+def gen_zrect(rng):
+    w = rng.choice([1, 8, 16, 64, 65, 72, 130])
+    h = rng.choice([1, 2, 64, 66])
+    x, y = rng.randrange(0, 300 - w), rng.randrange(0, 200 - h)
+    tiles = []
+    for ty in range(y, y + h, 64):
+        for tx in range(x, x + w, 64):
+            tiles.append(gen_ztile(rng, min(64, x + w - tx), min(64, y + h - ty)))
+    return [x, y, w, h, tiles]
+
+
+def zrle_theorem_samples(camp, model, rng, n):
+    """C02_zrle_roundtrip sampled: the tile stream the theorem speaks of is deflated here (one stream per connection) and
+    sent to the real client, which has to make exactly the callbacks [zevents] promises."""
+    import zlib
+    cases = [[gen_zrect(rng) for _ in range(rng.choice([1, 1, 2, 3]))] for _ in range(n)]
+    flat = [r for c in cases for r in c]
+    answers = iter(model.call_many([("spec_zrle", r) for r in flat]))
+    hs = b"RFB 003.008\n\x01\x01\0\0\0\0" + struct.pack("!HH16sI", 300, 200, rfbgen.RGB32.block(), 0)
+    names = ["raw", "solid", "plain-rle", "palette-rle", "packed"]
+    for rects in cases:
+        z = zlib.compressobj()
+        wire = b"\0\0" + struct.pack("!H", len(rects))
+        want = [("Begin",)]
+        for (x, y, w, h, tiles) in rects:
+            ans = next(answers)
+            comp = z.compress(bytes(ans[0])) + z.flush(zlib.Z_SYNC_FLUSH)
+            wire += struct.pack("!HHHHiI", x, y, w, h, 16, len(comp)) + comp
+            want += rfbreal.canon_model([ans[1], [2]])[0]
+        want += [("Commit", [tuple(r[:4]) for r in rects]), ("Bell",)]
+        data = hs + wire + b"\x02"
+        cut = rng.randrange(len(hs), len(data))
+        for chunks in ([data], [data[:cut], data[cut:]]):
+            cfg = Cfg(variant=1)
+            r = run_real(cfg, chunks)
+            camp.evaluations += 1
+            camp.count("theorem-sample:zrle")
+            for rc in rects:
+                for t in rc[4]:
+                    camp.count("theorem-sample:zrle-" + names[t[0]])
+            camp.nontrivial.add(("zthm", len(wire), wire[:24], len(chunks)))
+            evs = r["events"]
+            b = next((i for i, e in enumerate(evs) if e == ("Begin",)), None)
+            got = evs[b:] if b is not None else []
+            if r["final"][0] != "idle" or got != want:
+                k = next((i for i, (a, c) in enumerate(zip(got, want)) if a != c), min(len(got), len(want)))
+                camp.oracle_failures.append({"kind": "oracle", "property": "C02", "case": case_payload(cfg, chunks, {"spec": "zrle_roundtrip"}),
+                                             "what": f"a ZRLE update written as C02_zrle_roundtrip says ({[(rc[:4], [names[t[0]] for t in rc[4]]) for rc in rects]}): "
+                                                     f"the client ends {r['final'][:2]}; callback #{k}: promised {trim([want[k]]) if k < len(want) else None}, "
                                                      f"made {trim([got[k]]) if k < len(got) else None}"})
                 return
 
